@@ -128,12 +128,8 @@ func (e *Engine) lookupFunc(pkg, key string) *ssa.Function {
 	if sp == nil {
 		return nil
 	}
-	for _, fn := range e.funcs {
-		if fn.Pkg == sp || (fn.Pkg == nil && fn.Origin() != nil && fn.Origin().Pkg == sp) {
-			if e.relName(fn) == key {
-				return fn
-			}
-		}
+	if all := e.lookupFuncs(pkg, key); len(all) > 0 {
+		return all[0]
 	}
 	// try forcing an instantiation: key like (IntCodec[int16]).Read
 	if fn := e.forceInstance(sp, key); fn != nil {
@@ -199,6 +195,30 @@ func (e *Engine) forceInstance(sp *ssa.Package, key string) *ssa.Function {
 	named, ok := obj.Type().(*types.Named)
 	if !ok {
 		return nil
+	}
+	// generic origin method, e.g. (*Encoder[T]).Flush: type-parameter names instead of type arguments
+	if tps := named.TypeParams(); tps != nil && tps.Len() > 0 {
+		allParams := true
+		parts := strings.Split(targStr, ",")
+		if len(parts) == tps.Len() {
+			for i, ts := range parts {
+				if strings.TrimSpace(ts) != tps.At(i).Obj().Name() {
+					allParams = false
+				}
+			}
+		} else {
+			allParams = false
+		}
+		if allParams {
+			for i := 0; i < named.NumMethods(); i++ {
+				if named.Method(i).Name() == meth {
+					if fn := e.prog.FuncValue(named.Method(i)); fn != nil {
+						return fn
+					}
+				}
+			}
+			return nil
+		}
 	}
 	var targs []types.Type
 	for _, ts := range strings.Split(targStr, ",") {
@@ -325,4 +345,30 @@ func (e *Engine) ifaceParamNames(key string) []string {
 		}
 	}
 	panic(cerr("no method %s", key))
+}
+
+// lookupFuncs returns every (non-generic-origin first) function of package pkg whose package-relative name is key;
+// an instantiated generic function yields one entry per instantiation.
+func (e *Engine) lookupFuncs(pkg, key string) []*ssa.Function {
+	sp := e.ssaPkgs[pkg]
+	if sp == nil {
+		return nil
+	}
+	var inst, generic []*ssa.Function
+	for _, fn := range e.funcs {
+		if fn.Pkg == sp || (fn.Pkg == nil && fn.Origin() != nil && fn.Origin().Pkg == sp) {
+			if e.relName(fn) == key {
+				if fn.TypeParams().Len() > 0 && len(fn.TypeArgs()) == 0 {
+					generic = append(generic, fn)
+				} else {
+					inst = append(inst, fn)
+				}
+			}
+		}
+	}
+	sort.Slice(inst, func(i, j int) bool { return inst[i].String() < inst[j].String() })
+	if len(inst) > 0 {
+		return inst
+	}
+	return generic
 }
